@@ -145,9 +145,14 @@ BaseCatalogue == <<
   Ent("type", <<Id("HashMap"), P("<", FALSE), Id("A"), P(",", FALSE), Id("B"), P(">", FALSE)>>, {1, 6}, FALSE),   \* comma in generics
   Ent("expr", <<A("0")>>, {1}, FALSE),                                                              \* 26 member access by tuple index
   Ent("expr", <<Id("field")>>, {1}, FALSE),                                                         \* 27 field
-  Ent("expr", <<Id("f"), P(":", TRUE), P(":", FALSE), P("<", FALSE), Id("A"), P(">", FALSE), G("(", "()")>>, {1, 6, 7}, FALSE) >>  \* 28 method with turbofish
+  Ent("expr", <<Id("f"), P(":", TRUE), P(":", FALSE), P("<", FALSE), Id("A"), P(">", FALSE), G("(", "()")>>, {1, 6, 7}, FALSE),   \* 28 method with turbofish
+  \* 29.. shifts and a comparison at the top level of the operand: `<<` / `>>` are two thirds of `<<<` / `>>>`
+  Ent("expr", <<P("|", FALSE), Id("v"), P("|", FALSE), Id("v"), P("<", TRUE), P("<", FALSE), A("2")>>, {4, 7}, FALSE),
+  Ent("expr", <<P("|", FALSE), Id("v"), P("|", FALSE), Id("v"), P(">", TRUE), P(">", FALSE), A("1")>>, {4, 7}, FALSE),
+  Ent("expr", <<Id("a"), P("<", FALSE), Id("b")>>, {1, 3}, FALSE),
+  Ent("expr", <<Id("a"), P("<", TRUE), P("<", FALSE), Id("b"), P("<", FALSE), Id("c")>>, {1, 4, 6}, FALSE) >>
 NBase == Len(BaseCatalogue)
-ExprBase == 1 .. 20
+ExprBase == (1 .. 20) \cup (29 .. 32)
 TypeBase == 21 .. 25
 
 \* operand reference: <<"b", i>> base entry i, or <<"c", symtext, j>> container j around a look-alike
